@@ -4,6 +4,13 @@ TB = ("Trusted: Lean 4.33 kernel (axioms propext, Quot.sound, Classical.choice a
       "(harness/, lean/Main.lean, check); std Mutex/Arc/Waker, pin-project, ManuallyDrop/MaybeUninit, slab, smallvec, "
       "fixedbitset modelled not verified; multi-threaded wake-ups linearised at the readiness mutex.")
 
+KT = (" Static kernel tie (FcProps/KTie{grp}.lean): on every run tools/rs2lean.py translates the crate's waker kernel "
+      "from /repo's current source text into Lean (FcGen/KSrc*.lean, functions in the Option monad over the primitives of "
+      "Fc/RustPrims.lean) and the theorems that the translated functions refine the hand-written kernel Fc/Kernel.lean - "
+      "same return value, abstraction commutes, cached ready count stays exact, no panic on indices inside the set - are "
+      "re-checked against that translation; a kernel change that alters behaviour breaks these proofs (then: search for a "
+      "failing input), a source outside the translator's subset makes this tie unavailable (noted; the dynamic tie decides).")
+
 CLAIMS = {
     "C16": dict(
         text="Theorem C16_selective_fixed (FcProps/C16.lean): for every combinator over a fixed set of children that uses "
@@ -382,3 +389,43 @@ CLAIMS["C15"] = dict(
     technique="Lean 4 theorem over all traces of an operational model (acceptor) + trace validation of the real code against it")
 
 NOT_APPLICABLE = {}
+
+# the properties whose checks also re-establish the static kernel tie (tools/props.py: ktie)
+for _p, _g in (("C01", "Std,Dir: readiness sets of both strategies, InlineWaker::wake = fireWk"), ("C16", "Std: readiness sets, resize, wake"),
+               ("C20", "Std,Dir"), ("C17", "Idx: Indexer::iter / IndexIter::next yield Fix.rot and bump the offset"),
+               ("C04", "PS: PollState"),
+               ("C11", "Grp: FutureGroup with_capacity/new/len/is_empty/capacity/contains_key/reserve/insert/remove refine GEng.reserve/grow/insertAt/remove"),
+               ("C12", "Grp: StreamGroup with_capacity/new/len/is_empty/capacity/contains_key/reserve/insert/remove refine GEng.reserve/grow/insertAt/remove")):
+    CLAIMS[_p]["text"] = CLAIMS[_p]["text"] + KT.replace("{grp}", "{" + _g.split(":")[0] + "}") + " Groups here: " + _g + "."
+
+CLAIMS["C02"]["text"] = CLAIMS["C02"]["text"] + (
+    " Concurrent-stream drivers (FcProps/C02co.lean): theorem C02_co_values - every trace accepted by the value-ownership "
+    "acceptor Fc/CoVal.lean (source items, errors returned by work futures, values handed back to the caller; for "
+    "Vec::into_co_stream() the items exist from the start) satisfies holds_C02co: no value is dropped or returned more often "
+    "than it was created at any point of the trace, and when the operation's own drop has returned every created value has "
+    "been dropped or returned exactly once - for every adapter stack, terminal, interleaving and drop point; the work futures "
+    "themselves are covered by the CoSpec acceptor (a work future is dropped only while live, a running one only by "
+    "cancellation, none is left at dropEnd). The check runs the co-stream cases in the std and alloc-only builds and requires "
+    "every real trace to be accepted by both acceptors and to satisfy the monitor (the harness logs every drop of a value).")
+
+CLAIMS["C01"]["text"] = CLAIMS["C01"]["text"] + (
+    " Membership changes WHILE a group is drained (FcProps/C01liveGMix.lean, executor Fc/ExecGMix.lean): theorem "
+    "C01_group_mix_ends - a consumer that, between rounds of the wake-only executor (any schedule, busy environment), performs a "
+    "finite plan of insert / extend / reserve / remove operations (fresh, well-behaved members; each entry followed by an "
+    "unconditional poll) still drains the group: within 3*(steps of all members ever present)+1+2*|plan| rounds the plan is "
+    "performed, the latest outcome is None and no member is left; C01_group_mix_delivers - for plans without remove every "
+    "member ever inserted has delivered its output / all its items in order (the version with remove is kept as "
+    "C01_group_mix_delivers_remove_statement, unproved: the delivery invariant of the existing proofs does not survive a removal).")
+CLAIMS["C16"]["text"] = CLAIMS["C16"]["text"] + (
+    " One level of nesting (FcProps/C16nest.lean): theorem C16_nest - in the std strategy, in every reachable state of the "
+    "lock-step nest model (Fc/Nest.lean; any outer family, any inner pattern, all scripts and histories) the selective-polling "
+    "monitor holds on the trace of the outer instance (if it tracks readiness) and of every inner instance that does; proved "
+    "through a projection lemma (Nest.inner_flat: every inner instance's state is the final state of a flat case under some "
+    "history) - C16_nest_projection, C16_nest_inner_via_flat.")
+CLAIMS["C20"]["text"] = CLAIMS["C20"]["text"] + (
+    " One level of nesting (FcProps/C20nest.lean): C20_nest_instances - both sentences of the monitor hold for the outer and "
+    "for every inner concurrent instance, and a Pending concurrent outer has polled every child; C20_nest - a nested child whose "
+    "latest answer to the outer was Pending has started all its leaves, and a woken waiting leaf of such a child is polled by "
+    "the next top-level poll (through both levels). The naive statement 'every leaf of every live inner instance has been "
+    "polled when the nest is Pending' is refuted in the file (chain outer; zip over merge: a buffered row holds the merge back) "
+    "- the real code behaves the same way.")
